@@ -215,7 +215,7 @@ def run(ctx: Ctx):
     rnd = random.Random(ctx.seed)
     if ctx.quick:
         vals = [rec("date", 0), rec("naive", 10), rec("utc", 10), rec("zoned", 36)]
-        durs = {24, 1, 0}
+        durs = {24, 1, 0, 25}
     else:
         vals = [rec("date", 0), rec("date", 24), rec("naive", 10), rec("naive", 34), rec("utc", 10),
                 rec("utc", 35), rec("zoned", 11), rec("zoned", 36)]
